@@ -51,7 +51,8 @@ def required_cells(tier):
               "file-includes-itself", "null-directive", "benign-directive", "form-feed-and-other-non-line-breaks",
               "crlf-line-ends", "crlf-with-continuation-in-directive", "malformed-directive-in-skipped-group",
               "line-longer-than-read-buffers", "utf-8-byte-order-mark", "nested-headers-with-unknown-extension",
-              "malformed-conditional-in-skipped-group"]
+              "malformed-conditional-in-skipped-group", "class:command-line-undef", "command-line:-D-then-U", "command-line:-U-then-D",
+              "macro-chain-depth>=45", "macro-chain-depth>=150", "macro-chain-depth>=190"]
     return cells
 
 
@@ -360,6 +361,82 @@ def elif_after_taken_cell(r, live):
     return False
 
 
+UNDEF_PROGRAM = [["code"],
+                 ["chain", [["if", "A == 1", [["code"]]], ["elif", "defined(A)", [["code"]]], ["else", None, [["code"]]]]],
+                 ["chain", [["ifdef", "B", [["code"]]], ["else", None, [["code"]]]]],
+                 ["chain", [["if", "defined(C) && C == 3", [["code"]]], ["else", None, [["code"]]]]],
+                 ["chain", [["ifdef", "AB", [["code"]]], ["else", None, [["code"]]]]],
+                 ["chain", [["ifdef", "CC", [["code"]]], ["else", None, [["code"]]]]]]
+UNDEF_COMMANDS = [["-DA=1", "-UA"], ["-UA", "-DA=1"], ["-U", "B", "-DB"], ["-DB", "-U", "B"], ["-DA", "-DB=2", "-UA", "-DA=1", "-UC", "-DC=3"],
+                  ["-DC=3", "-UCC", "-UA"], ["-DAB=1", "-UA", "-DCC", "-UC"], ["-DA=1", "-DA=1", "-UA"], ["-UA", "-UB", "-UC"],
+                  ["-DA=2", "-UA", "-DA=1", "-DB", "-UB", "-DB", "-UB"], ["-DC=3", "-U", "C", "-D", "C=3"], ["-D", "A=1", "-U", "AB", "-DAB"]]
+
+
+def command_line_undef_scenarios(ctx, workdir):
+    """-U on the compile command: a compiler applies -D and -U from left to right, so the LAST option naming a macro
+    decides.  Expected: gcc -E with the very same options.  Observed: the configuration the real front end
+    (config.load_database on a one-entry database, `arguments` and `command` forms) derives, run through finder.find."""
+    import json
+    import shlex
+    from codebasin import config
+    acc = ctx.acc
+    r = cprog.render(UNDEF_PROGRAM)
+    path = os.path.join(workdir, "undef.c")
+    with open(path, "w") as f:
+        f.write(r.text)
+    for k, opts in enumerate(UNDEF_COMMANDS):
+        g = gcc.preprocess(path, extra=opts)
+        if not g["ok"]:
+            acc.oracle_disagreement({"options": opts, "gcc_stderr": g["stderr"][:200]})
+            continue
+        exp, _ = cprog.expected_lines(r, g["markers"])
+        cells = {"class:command-line-undef"}
+        seen = {}
+        for o in opts:
+            if o.startswith(("-D", "-U")) and len(o) > 2:
+                nm = o[2:].split("=")[0]
+                cells.add("command-line:-D-then-U" if o[1] == "U" and seen.get(nm) == "D" else
+                          "command-line:-U-then-D" if o[1] == "D" and seen.get(nm) == "U" else "command-line:-U-or-D")
+                seen[nm] = o[1]
+        argv = ["gcc"] + opts + ["-c", path]
+        for form in ("arguments", "command"):
+            e = {"file": path, "directory": workdir}
+            e[form] = argv if form == "arguments" else shlex.join(argv)
+            db = os.path.join(workdir, "undef-db.json")
+            with open(db, "w") as f:
+                json.dump([e], f)
+            problems = []
+            try:
+                conf = [c for c in config.load_database(db, workdir) if c.get("pass_name", "default") == "default"]
+                state, _ = cbi.run_find(workdir, {"p": conf})
+                lines, _ = cbi.per_line(state, path)
+                obs = {ln for ln, ps in lines.items() if "p" in ps}
+                if obs != exp:
+                    problems.append({"kind": "attribution under -U/-D options", "options": opts, "form": form, "defines_seen_by_the_analysis":
+                                     conf[0]["defines"] if conf else None, "missing": sorted(exp - obs), "extra": sorted(obs - exp)})
+            except Exception as ex:
+                problems.append({"kind": "exception", "options": opts, "observed": f"{type(ex).__name__}: {ex}"})
+            if problems:
+                acc.violated({"input": {"options": opts, "form": form, "text": r.text}, "witness": {"text": r.text, "problems": problems}},
+                             mechanism=classify_undef(opts), cells=cells, nontrivial=(r.text, tuple(opts), form), cls="command-line")
+            else:
+                acc.held(cells=cells, nontrivial=(r.text, tuple(opts), form), cls="command-line", sample={"options": opts, "used_lines": sorted(exp)})
+
+
+def classify_undef(opts):
+    return None
+
+
+def deep_chain_case(depth):
+    """An object-like macro chain `depth` definitions long (CH<depth> -> ... -> CH0 -> K0), used in #if."""
+    ast = [["code"], ["define", "CH0", "K0"]]
+    for i in range(1, depth + 1):
+        ast.append(["define", f"CH{i}", f"CH{i - 1}"])
+    ast += [["chain", [["if", f"CH{depth} == 1", [["code"]]], ["elif", f"CH{depth // 2} + CH{depth} == 4", [["code"]]], ["else", None, [["code"]]]]],
+            ["chain", [["ifdef", f"CH{depth}", [["code"]]], ["else", None, [["code"]]]]], ["code"]]
+    return ast
+
+
 def run_shard(ctx):
     acc = ctx.acc
     b = bounds(ctx.tier)
@@ -390,6 +467,17 @@ def run_shard(ctx):
                              ["else", None, [["code"]]]]]]
         r = cprog.render(probe2)
         run_case(ctx, work, r.text, [], r, "enum", case={"ast": probe2})
+    # -U / -D on the command line, in every order (deterministic)
+    if ctx.shard == 1 % ctx.nshards:
+        command_line_undef_scenarios(ctx, work)
+    # long chains of object-like macros, below the expander's documented nesting limit of 200
+    for k, depth in enumerate((45, 90, 150, 190)):
+        for dk, defs in enumerate((["K0=1"], ["K0=2"], [])):
+            if (k * 3 + dk + 2) % ctx.nshards == ctx.shard:
+                ast = deep_chain_case(depth)
+                r = cprog.render(ast)
+                acc.cells[f"macro-chain-depth>={depth}"] += 1
+                run_case(ctx, work, r.text, defs, r, "deep-chain", check_table=False, case={"ast": ast})
     # (R) random programs
     rng = ctx.rng("random")
     for i in range(b["random"]):
